@@ -756,7 +756,7 @@ impl Prop for P {
         "C08"
     }
     fn rule(&self) -> &'static str {
-        "2-3 threads x 1-6 ops (alloc / free own block / hand a block to another thread) against one pool (secure, lock-free, five-level lock-free, five-level mutex, fixed-capacity, basic) with 0-3 pre-freed blocks, interleaved by a generated schedule consumed at the cfg(zipora_verif) yield points around every free-list head load / next read / CAS (random byte schedules + bounded-exhaustive <=2 forced switches for fixed programs). Oracle: global shadow map (no two live blocks overlap, pattern intact at free), drain at quiescence (each freed block reissued at most once, never a live one, none lost for LIFO pools), public counters add up. plus <pool>_free cells: the same programs looped 1500x on 2-6 real unscheduled OS threads (working set <= 24 blocks per thread), 2 fresh pools per case, ownership through a bucketed claim table; with knob bit 4 and >= 3 threads instead: two threads keep requesting the largest block while the others fill the pool with small ones (refused and granted requests interleave), 12 fresh pools per case (race windows that contain no yield point; non-trivial = >= 2 allocating threads). Non-trivial = a context switch taken at a yield point inside a pool operation; distinct by hash of (pool, programs, effective switch sequence)."
+        "2-3 threads x 1-6 ops (alloc / free own block / hand a block to another thread) against one pool (secure, lock-free, five-level lock-free, five-level mutex, fixed-capacity, basic) with 0-3 pre-freed blocks, interleaved by a generated schedule consumed at the cfg(zipora_verif) yield points around every free-list head load / next read / CAS (random byte schedules + bounded-exhaustive <=2 forced switches for fixed programs). Oracle: global shadow map (no two live blocks overlap, pattern intact at free), drain at quiescence (each freed block reissued at most once, never a live one, none lost for LIFO pools), public counters add up. plus <pool>_free cells: the same programs looped 1500x on 2-6 real unscheduled OS threads (working set <= 24 blocks per thread), 2 fresh pools per case, ownership through a bucketed claim table; with knob bit 4 and >= 3 threads instead: two threads keep requesting the largest block while the others fill the pool with small ones (refused and granted requests interleave), 32 fresh pools per case (race windows that contain no yield point; non-trivial = >= 2 allocating threads). Non-trivial = a context switch taken at a yield point inside a pool operation; distinct by hash of (pool, programs, effective switch sequence)."
     }
     fn assumptions(&self) -> Vec<String> {
         vec![
@@ -845,7 +845,7 @@ impl Prop for P {
                 if allocating >= 2 {
                     ctx.nontrivial();
                 }
-                let reps = if c.knob & 16 != 0 && c.threads.len() >= 3 { reps * 6 } else { reps };
+                let reps = if c.knob & 16 != 0 && c.threads.len() >= 3 { reps * 16 } else { reps };
                 if c.knob & 16 != 0 && c.threads.len() >= 3 {
                     ctx.label("free_running_exhaustion_under_contention");
                 }
